@@ -135,7 +135,7 @@ EXTRA = {
     "C12": " Each numeric run is followed by four runs of the same object started after the user shifted the system by hand (cold rounds). FixRot on nearly linear molecules in any orientation and one constraint object re-used after masses / geometry changed. A Hamiltonian move driven by hand after a user edit, with refused trajectories.",
     "C13": " Every fifth instance uses fictitious sampling masses given to the driver through update_masses (per atom or per coordinate). A step after the calculator was swapped without moving an atom. Per-coordinate mass-scaling powers.",
     "C14": " The reversibility / order layer includes a rotating rigid bond (FixBondLength). A trajectory started after the atoms were moved by hand since the last evaluation. FixRot on clusters of unequal masses.",
-    "C15": " Plans may contain a rebuild (to_dict -> from_dict between two calls) and drivers without a log file; a counter of requested steps makes 'exactly the requested number' an invariant; liveness (every plan completes) is checked under weak fairness in the thorough tier. A per-case watchdog turns a call that does not return into a violation; the default restart observer is attached next to logger and trajectory (one rewrite per scheduled call). irun generators created before they are iterated.",
+    "C15": " Plans may contain a rebuild (to_dict -> from_dict between two calls) and drivers without a log file; a counter of requested steps makes 'exactly the requested number' an invariant; liveness (every plan completes) is checked under weak fairness in the thorough tier. A per-case watchdog turns a call that does not return into a violation; the default restart observer is attached next to logger and trajectory (one rewrite per scheduled call). irun generators created before they are iterated. DriverInd.tla: the same claims for unbounded call lengths / calls / rebuilds / intervals by an inductive invariant discharged with Apalache, tied to Driver.tla by a refinement check in TLC.",
     "C16": " Files.tla also has a failing logger call (nothing written) and pre-existing file content in 'a' mode, both bound by recorded histories; LoggerFields.tla (field management: insertion order, replace in place, remove by pattern, the shipped stress columns under every mask) and Observers.tla (file ownership) are replayed on the real classes. User checkpoints through the restart observer after the moves of a step. A draining run (empty-box frames), resume from the step-0 restart file into a new log, observer calls that write nothing still count. HeaderFormat.tla (derivation of header cells from data-cell formats) is replayed on the real function, str.format and Logger.add_field.",
     "C18": " The curve is also replayed with reference variances 1 and 2 (coefficients above 1, committees of c^2+1 members). Alternating histories (committee data appear, disappear, re-appear between updates). Committee members that disagree in sign, identical members and realistic energy offsets.",
     "C19": " The caller's default array is handed over as is after an earlier search; delete + re-insert is also exercised the way the library composes it (a rejected grand-canonical trial that deletes one particle and inserts another, both orders). Negative indices.",
